@@ -19,7 +19,8 @@ NoRT == [armed |-> FALSE, orig |-> Nil]
 NoEcho == [st |-> 0, plan |-> VNilIf, s |-> Nil, dg |-> <<>>, back |-> VNilIf]
 NoAux == [rt |-> NoRT, chain |-> FALSE, lastArmed |-> FALSE, lastObj |-> Nil, echo |-> NoEcho, memo |-> EmptyFn]
 
-IsEmptyOf(tv, at) == tv.k = "obj" /\ ~tv.null /\ ~tv.unk /\ tv.at = at /\ DOMAIN tv.attrs = {}
+\* (whatever its flags say: a null / unknown object without values is an empty target as well)
+IsEmptyOf(tv, at) == tv.k = "obj" /\ tv.at = at /\ DOMAIN tv.attrs = {}
 
 \* at2 is obtained from at1 by removing attribute types at object levels
 RECURSIVE SubTypeOf(_, _)
